@@ -75,8 +75,11 @@ def run(ctx: Ctx):
     col.ob("G16", "S1", f"{where}::output-from-weights-and-values-only", ok_ret,
            "the returned value does not derive from (softmax weights, value) alone: unmasked scores reach the output",
            rel, ret.lineno, sample=u(ret.value))
-    shape_ok = isinstance(ret.value, ast.Call) and isinstance(ret.value.func, ast.Attribute) and ret.value.func.attr == "sum" \
-        and isinstance(ret.value.func.value, ast.BinOp) and isinstance(ret.value.func.value.op, ast.Mult)
+    from sa.inline import Inliner
+    inl_f = Inliner(fwd.node, rd, keep={fwd.params[3].name})
+    retx = inl_f.expand(ret.value)  # the product / the softmax axis may have been given names first
+    shape_ok = isinstance(retx, ast.Call) and isinstance(retx.func, ast.Attribute) and retx.func.attr == "sum" \
+        and isinstance(retx.func.value, ast.BinOp) and isinstance(retx.func.value.op, ast.Mult)
     col.ob("G16", "S1", f"{where}::output-is-weighted-sum", shape_ok,
            f"the output `{u(ret.value)}` is not sum(weights * value): not a convex combination of values", rel, ret.lineno)
 
@@ -107,7 +110,8 @@ def run(ctx: Ctx):
     # Relative ranks: key/value 0, query -1, query.unsqueeze(dim) 0 (the index is relative to the RESULT's rank),
     # scores e -1 (feature axis reduced), weights*value 0.
     sm_dim = sm.args[1] if len(sm.args) > 1 else kwarg(sm, "dim")
-    sites = {"softmax(e, .)": (-1, sm_dim), "sum(.)": (0, ret.value.args[0] if shape_ok and ret.value.args else None)}
+    sites = {"softmax(e, .)": (-1, inl_f.expand(sm_dim) if sm_dim is not None else None),
+             "sum(.)": (0, retx.args[0] if shape_ok and retx.args else None)}
 
     def adjusted_for_negative(e, shift):
         """Does expression e denote self.dim on a tensor whose rank is R + shift? shift 0: plain `self.dim`;
